@@ -12,3 +12,25 @@ package funcfile
 //@   requires compiler != nil
 //@ func keyBuilderToFunction
 //@   requires stage != nil
+
+// ---- C10: a funcs-file function behaves like its body with {i} replaced by argument i ----
+// The lazy context answers {i} with argument i evaluated in the caller's context (empty when the
+// argument is missing) and passes named keys through to the caller's context.
+//@ func (*lazySubContext).GetMatch
+//@   requires s.sub != nil
+//@   pure
+//@   ensures [missing] (idx < 0 || idx >= len(s.args)) ==> result == ""
+//@   ensures [argument] 0 <= idx && idx < len(s.args) ==> result == app(s.args[idx], s.sub)
+//@ func (*lazySubContext).GetKey
+//@   requires s.sub != nil
+//@   pure
+//@   ensures [pass-through] result == ctx_key(s.sub, name)
+
+// the per-call stage: the body runs against a lazy context bound to this call's arguments and to
+// the caller's context (which is also where named keys are resolved)
+//@ func keyBuilderToFunction$1$2
+//@   assert at "return stage.BuildKey(subCtx)" : subCtx.sub == kbc
+
+// the pool's allocator binds every pooled context to this call site's arguments
+//@ func keyBuilderToFunction$1$1
+//@   ensures result != nil && ref(result.args) == ref(*args) && len(result.args) == len(*args) && off(result.args) == off(*args)
